@@ -46,6 +46,7 @@ c.ensures('frame[_s_successors]', lambda c: unchanged_field(
     c.pre, c.cur, '_s_successors', lambda o: member(c.pre, c.a.self, o)))
 c.ensures('frame[elems]', lambda c: old_sets_unchanged(c.pre, c.cur))
 c.ensures('alive-mono', lambda c: alive_mono(c.pre, c.cur))
+c.ensures('allocates-only-sets', lambda c: allocates_only(c.pre, c.cur, 'set'))
 
 
 def _bl_fresh(c, which):
@@ -65,6 +66,7 @@ c.loop(0, inv=[
         c.pre, c.cur, '_s_successors', lambda o: Select(c.visited, o))),
     ('old-sets-unchanged', lambda c: old_sets_unchanged(c.pre, c.cur)),
     ('alive-mono', lambda c: alive_mono(c.pre, c.cur)),
+    ('allocates-only-sets', lambda c: allocates_only(c.pre, c.cur, 'set')),
 ])
 # outer loop of the second phase: for job in self.jobs
 c.loop(1, inv=[
@@ -76,6 +78,7 @@ c.loop(1, inv=[
     ('fresh', lambda c: _bl_fresh(c, c.iterset)),
     ('old-sets-unchanged', lambda c: old_sets_unchanged(c.pre, c.cur)),
     ('alive-mono', lambda c: alive_mono(c.pre, c.cur)),
+    ('alive-stable', lambda c: c.cur.H('$alive') == c.loop_pre.H('$alive')),
 ])
 # inner loop: for req in job.required
 c.loop(2, inv=[
@@ -88,6 +91,7 @@ c.loop(2, inv=[
     ('fresh', lambda c: _bl_fresh(c, c.outer[-1]['iterset'])),
     ('old-sets-unchanged', lambda c: old_sets_unchanged(c.pre, c.cur)),
     ('alive-mono', lambda c: alive_mono(c.pre, c.cur)),
+    ('alive-stable', lambda c: c.cur.H('$alive') == c.loop_pre.H('$alive')),
 ])
 
 
